@@ -270,9 +270,10 @@ func main() {
 			"in-memory network implements the net.Conn/net.Listener contract the server relies on; time is virtual",
 			"schedules beyond the stated deviation bound, more than 3 clients and handler durations other than 0/10/120 ms are not covered",
 		},
-		Run:    run,
-		Replay: replay,
-		Shards: func(tier string) int { return 16 },
+		Run:        run,
+		Replay:     replay,
+		Shards:     func(tier string) int { return 16 },
+		ShardProcs: 1,
 		Finish: func(tier string, res *ev.Result, cov map[string]any) {
 			cov["states"] = res.Counters["tree_nodes"]
 			cov["transitions"] = res.Counters["steps"]
